@@ -22,7 +22,7 @@ RULE = ('a case = one request in a history on one configuration (reply compared 
         'non-trivial = the request addressed an existing tag and a reply was decoded and compared')
 ASSUMPTIONS = ['reply budget 488 bytes (Logix.MAX_BYTES default)', 'string arrays kept <= 5 elements (the budget arithmetic for variable-length elements is an estimate in the library)']
 REQUIRED = ['requests', 'service:read_tag', 'service:read_frag', 'service:write_tag', 'service:write_frag', 'service:get_attribute_single', 'service:set_attribute_single',
-            'path:symbolic', 'path:numeric', 'path:case-varied', 'tag:scalar', 'tag:array', 'tag:larger-than-one-reply', 'tag:shared-instance', 'tag:aliased-attribute', 'tag:latin1-near-homonyms',
+            'path:symbolic', 'path:numeric', 'path:case-varied', 'tag:scalar', 'tag:array', 'tag:larger-than-one-reply', 'tag:shared-instance', 'tag:aliased-attribute', 'tag:latin1-near-homonyms', 'tag:explicit-in-allocation-instance',
             'status:0x00', 'status:0x06', 'status:0xff', 'monitor:state-compare', 'monitor:reply-compare', 'tcp:configs', 'tcp:second-session-compare',
             'type:' + 'STRING', 'type:BOOL', 'type:LREAL', 'type:ULINT', 'write:narrower-source-type']
 TIMEOUT = {'quick': 300, 'thorough': 2400}
@@ -139,10 +139,10 @@ def run_history(ctx, cfg, nreq, tcp):
             (sim.stop if tcp else sim.close)()
 
 
-def gen_cfg(rng, big=False, share=False):
+def gen_cfg(rng, big=False, share=False, router=False):
     from vlib import reqgen
     sizes = [1, 1, 2, 3, 5, 8, 16, 40] + ([300, 700, 1200] if big else [])
-    cfg = reqgen.gen_config(rng, sizes=sizes, ntags=rng.choice([3, 4, 6]) if share else None, force_sharing=share)
+    cfg = reqgen.gen_config(rng, sizes=sizes, ntags=rng.choice([3, 4, 6]) if share else None, force_sharing=share, router_instance=router)
     if big:
         cfg = cfg[:5] + [('BigOne', rng.choice(['INT', 'DINT', 'LINT', 'REAL']), rng.choice([300, 500, 700]), None)]
     return [(n, t, min(s, 5) if t in ('SSTRING', 'STRING') else s, a) for n, t, s, a in cfg]
@@ -157,7 +157,9 @@ def run(ctx):
         if quick and i > 14:
             break
         tcp = (i % 4 == 0)
-        cfg = gen_cfg(rng, big=(i % 3 == 1), share=(i % 2 == 0))
+        cfg = gen_cfg(rng, big=(i % 3 == 1), share=(i % 2 == 0), router=(i % 4 == 1))
+        if i % 4 == 1:
+            ctx.count('tag:explicit-in-allocation-instance')
         if i % 3 == 2:
             from vlib import reqgen
             cfg = reqgen.add_latin1_pair(rng, cfg[:4])
